@@ -39,12 +39,15 @@ def applicable(kind):
     return APPLICABLE.get(kind, ALL)
 
 
-def quantities(kind, r, ta):
+def quantities(kind, r, ta, rt=0.0):
     C = M.COLS
     vi, vo, ii, io, P, L = r[C["vin"]], r[C["vout"]], r[C["iin"]], r[C["iout"]], r[C["p"]], r[C["l"]]
     tr, tp = r.get(C["tr"]), r.get(C["tp"])
     if not M.num(tr):
-        tr, tp = 0.0, ta
+        # the temperature columns are hidden when no rise is > 0; the quantities are then recomputed with the same
+        # expression (a loss-less element may carry a loss of -1e-8 W, i.e. a tiny NEGATIVE rise)
+        tr = abs(rt) * ((P + L) if kind in ("PLoad", "ILoad", "RLoad") else L)
+        tp = ta + tr
     q = {"vi": vi, "vo": vo, "vd": abs(vi) - abs(vo), "ii": ii, "io": io, "pi": P, "po": P - L, "pl": L,
          "tr": tr, "tp": tp}
     if kind == "Source":
@@ -99,7 +102,7 @@ def choose_limits(rng, spec, df, ta):
         if not rows:
             continue
         r = rng.choice(rows)
-        q = quantities(c["kind"], r, ta)
+        q = quantities(c["kind"], r, ta, c["args"].get("rt", 0.0))
         lim = {}
         keys = rng.sample(ALL, rng.randint(1, 5))
         for k in keys:
@@ -198,7 +201,7 @@ def run(ctx, case):
                 ctx.check("warn.unlisted_phase_empty", not got, det)
                 warned[n] = bool(got)
                 continue
-            q = quantities(k, r, ta)
+            q = quantities(k, r, ta, c["args"].get("rt", 0.0))
             exp = expected_tokens(k, c.get("limits"), q)
             ctx.check("warn.cell", got == exp, dict(det, expected=sorted(exp), quantities=q))
             for key, mode in (plan.get(n) or {}).items():
